@@ -59,6 +59,16 @@ Theorem C19_cancel_stops : forall c s r ops,
   (count_ref r (s_delivered s2) <= count_ref r (s_delivered s) + count_ref r (s_inflight s))%nat.
 Proof. exact cancel_stops. Qed.
 
+(* Registering again under a reference whose schedule is still queued is refused and leaves that
+   schedule queued, known and cancellable (ScheduleOnce and Schedule are push_new in the model). *)
+Theorem C19_duplicate_registration_keeps_live : forall c s r j t first now,
+  reach c s -> jget r (s_jobs s) = Some j ->
+  let s' := fst (push_new s r t first now) in
+  snd (push_new s r t first now) = EExists /\
+  s_jobs s' = s_jobs s /\ mem r (s_keys s') = true /\
+  snd (step s' (OCancel r)) = EOk /\ jget r (s_jobs (fst (step s' (OCancel r)))) = None.
+Proof. exact duplicate_registration_keeps_live. Qed.
+
 (* While a schedule is paused it does not fire. *)
 Theorem C19_paused_does_not_fire : forall ops c s r j,
   reach c s -> valid_run c ops -> jget r (s_jobs s) = Some j -> j_susp j = true ->
@@ -112,6 +122,7 @@ Print Assumptions C19_once_at_most_once.
 Print Assumptions C19_fires_when_due.
 Print Assumptions C19_once_exactly_once_refuted.
 Print Assumptions C19_cancel_stops.
+Print Assumptions C19_duplicate_registration_keeps_live.
 Print Assumptions C19_paused_does_not_fire.
 Print Assumptions C19_unknown_reference.
 Print Assumptions C19_cancelled_reference.
